@@ -369,8 +369,9 @@ def to_unitless(value, new_unit=None):
     if isinstance(value, (list, tuple)):
         return np.array([to_unitless(elem, new_unit) for elem in value])
     elif isinstance(value, np.ndarray) and not hasattr(value, "rescale"):
-        if is_unitless(new_unit) and new_unit == 1 and value.dtype != object:
-            return value
+        if is_unitless(new_unit) and value.dtype != object:
+            conv = to_unitless(1.0, new_unit)  # e.g. 1e-3 for kg/g (which compares equal to 1)
+            return value if conv == 1 else value * conv
         return np.array([to_unitless(elem, new_unit) for elem in value])
     elif isinstance(value, dict):
         new_value = dict(value.items())  # value.copy()
